@@ -167,6 +167,79 @@ def run(ctx):
                 eng.kill()
         if len([v for v in violations if not v.get("no_input")]) >= 5:
             break
+    # ---- games in ONE process (the cache is kept): a full search, then a go with a budget too small to finish an iteration on
+    # the positions one and two plies further on — where the cache already holds entries written for INTERIOR nodes — must still
+    # name a legal move.  First a committed regression scenario, then self-play from tactical positions.
+    tiny = ["nodes 1", "movetime 0", "wtime 15 btime 15"]
+    game_starts = [("7r/2p3k1/1p1p1qp1/1P1Bp3/p1P2r1P/P7/4R3/Q4RK1 w - - 0 36", [["c4c5", "f4f1"]]),
+                   ("r3k2r/p1ppqpb1/bn2pnp1/3PN3/1p2P3/2N2Q1p/PPPBBPPP/R3K2R w KQkq - 0 1", []),
+                   ("6k1/1R3p2/6p1/2Bp3p/3P2q1/P7/1P2rQ1K/5R2 b - - 4 44", []),
+                   ("r1bqkb1r/pppp1ppp/2n2n2/4p2Q/2B1P3/8/PPPP1PPP/RNB1K1NR w KQkq - 4 4", [])]
+    replay_items, replay_meta = [], []
+    tiny_gos = 0
+    for fen, scripted in game_starts:
+        eng = uciproc.Engine()
+        try:
+            played = []
+
+            def ask(moves, limits):
+                poscmd2 = "position fen " + fen + (" moves " + " ".join(moves) if moves else "")
+                eng.send(poscmd2)
+                b0 = len(eng.lines())
+                eng.send("go " + limits)
+                i2 = eng.wait_for(lambda l: l.startswith("bestmove"), 60, start=b0)
+                if i2 is None:
+                    return poscmd2, None, []
+                out2 = eng.lines()[b0:i2 + 1]
+                pv = []
+                for l in out2:
+                    if l.startswith("info") and " pv " in l:
+                        pv = l.split(" pv ")[1].split()
+                return poscmd2, out2[-1].split()[1] if len(out2[-1].split()) > 1 else None, pv
+
+            for ply in range(10 if ctx["tier"] == "quick" else 40):
+                poscmd2, bm, pv = ask(played, "depth 3")
+                if bm is None or bm == "a1a1":
+                    break
+                probes = [played + pv[:1], played + pv[:2]] + ([played + sc for sc in scripted] if ply == 0 else [])
+                for pm in probes:
+                    if len(pm) <= len(played):
+                        continue
+                    for lim2 in tiny:
+                        pc, tb, _ = ask(pm, lim2)
+                        tiny_gos += 1
+                        if tb is None:
+                            rp = C.write_replay(prop, {"kind": "tiny budget after a full search in the same process", "position": pc,
+                                                       "go": "go " + lim2, "problem": "no bestmove"})
+                            violations.append({"replay": rp})
+                        elif tb != "a1a1":
+                            replay_items.append("match from_fen %s with Some b0 => match play b0 [%s] with Some _ => true | None => false end | None => false end"
+                                                % (B.coq_str(fen), "; ".join(B.coq_str(x) for x in pm + [tb])))
+                            replay_meta.append((fen, played, pm, lim2, tb))
+                played = played + [bm]
+        finally:
+            rc, t = eng.finish()
+            if rc is None:
+                eng.kill()
+    if replay_items:
+        rv, lg3 = C.coq_eval_items("c09g", B.HEADER, replay_items, lambda l: l, nshards=C.NPROC, timeout=900)
+        if rv is None:
+            rp = C.write_replay(prop, {"broken": "legality of tiny-budget answers (model evaluation)", "log": lg3[-1500:]})
+            violations.append({"replay": rp, "no_input": True})
+        else:
+            nb3 = 0
+            for ok3, (fen, played, pm, lim2, tb) in zip(rv, replay_meta):
+                if ok3 is not True:
+                    nb3 += 1
+                    if nb3 <= 3:
+                        pc = "position fen " + fen + " moves " + " ".join(pm)
+                        rp = C.write_replay(prop, {"kind": "tiny budget after a full search in the same process: the bestmove is not a legal move",
+                                                   "session": ["position fen " + fen + (" moves " + " ".join(played) if played else ""), "go depth 3", pc, "go " + lim2],
+                                                   "bestmove": tb,
+                                                   "replay_cmd": "printf 'position fen %s%s\\ngo depth 3\\n%s\\ngo %s\\n' | (cat; sleep 2) | %s | grep bestmove" % (
+                                                       fen, (" moves " + " ".join(played)) if played else "", pc, lim2, C.ENGINE)})
+                        violations.append({"replay": rp})
+    cov["tiny_budget_gos_after_full_search"] = tiny_gos
     cov["pipe_sessions"] = sessions
     cov["pipe_go_commands"] = gos
     cov["pipe_worst_seconds_over_budget"] = round(worst_over, 3)
@@ -176,7 +249,8 @@ def run(ctx):
                    "the K-th leaf with the oracle index fed to the model, engine answer vs model; "
                    "over the pipe: 8 positions (incl. game history, near-stalemate, promotion, fifty-move edge) x a grid of "
                    "depth/nodes/movetime/clock limits down to 0, consecutive go's in one session: exactly one bestmove per go, "
-                   "legal per the Coq model's move generator, readyok afterwards; latency measured with a 10x+3s allowance, "
+                   "legal per the Coq model's move generator, readyok afterwards; games in one process: after each full search, a go with a budget too small "
+                   "to finish an iteration on the positions one and two plies on (cache warm with interior entries) must name a legal move; latency measured with a 10x+3s allowance, "
                    "3-of-3 rule (runtime evidence)")
     cov["samples"].append({"position": POSITIONS[1], "go": grid[5][0]})
     return SP.finish(prop, gate, violations, cov)
